@@ -1370,6 +1370,7 @@ class nx_action_learn (of.ofp_action_vendor_base):
 
   def _unpack_body (self, raw, offset, avail):
     orig_offset = offset
+    self.spec = flow_mod_spec_chain() # Don't add to what an earlier unpack left
     offset,(self.subtype, self.idle_timeout, self.hard_timeout,
             self.priority, self.cookie, self.flags, self.table_id, _,
             self.fin_idle_timeout,
